@@ -208,3 +208,19 @@ class RatFun:
                     r = RatFun(r.num * a.num, r.den * a.den)
                 return r
         return NotImplemented
+
+
+def _ratfun_compare(self, interp, op, other, reflected, node):
+    o = RatFun.of(other)
+    if o is None:
+        if other is None and op in (ast.Eq, ast.NotEq):
+            return op is ast.NotEq
+        return NotImplemented
+    a, b = (o, self) if reflected else (self, o)
+    if op in (ast.Eq, ast.NotEq) and a.same(b):
+        return op is ast.Eq
+    interp.__dict__.setdefault("log", []).append(("cmp", op.__name__, a, b))
+    return interp.fork("%s %s %s" % (a, op.__name__, b))
+
+
+RatFun.a_compare = _ratfun_compare
